@@ -617,6 +617,11 @@ func (c13) Case(c *core.Ctx) {
 			c.Count("json:brace-in-string")
 		}
 	}
+	if api.json && r.Intn(4) == 0 {
+		mxj.JsonUseNumber = true // honoured by every JSON reader form alike (numbers keep their text)
+		defer func() { mxj.JsonUseNumber = false }()
+		c.Count("option:json-use-number")
+	}
 	// expected Maps: the library's direct decode of each document's bytes
 	wantFp := make([]string, len(ds))
 	for k, d := range ds {
